@@ -11,9 +11,11 @@ import (
 
 func c18Run(w *ndWriter, to, from J) {
 	bt, bf := buildItem(to), buildItem(from)
+	// the observed state before the call (the projection maps empty to unset, as the documented normal form does)
+	preTo, preFrom := projectItem(bt), projectItem(bf)
 	var err error
 	p := guard(func() { _, err = ap.CopyItemProperties(bt, bf) })
-	w.Write(J{"ev": "copy", "to": to, "from": from, "post_to": projectItem(bt), "post_from": projectItem(bf), "err": err != nil, "panic": p != "", "msg": p})
+	w.Write(J{"ev": "copy", "to": preTo, "from": preFrom, "post_to": projectItem(bt), "post_from": projectItem(bf), "err": err != nil, "panic": p != "", "msg": p})
 }
 
 func init() {
